@@ -13,7 +13,7 @@ approximate state generators.
 """
 import ast
 
-from ..loader import AnalysisError, norm, walk_no_nested, call_name
+from ..loader import parents_map, AnalysisError, norm, walk_no_nested, call_name
 from .. import ta, apiexist
 from ..ta import Expr, Array, Facts, normal, show_normal
 from ..ta_front import Interp, Obj, Index
@@ -268,10 +268,52 @@ def rule_C(run, prog):
                            "states of a trimer, first: %s" % (len(bad), npairs, bad[:1]), loc=c.loc(),
                    sample={"pairs": npairs, "full": True})
     # shift operator evaluated in the large basis and cut
-    st = [norm(s) for s in ast.walk(f.node) if isinstance(s, ast.stmt)]
-    ok = "fc = self.ops.shift_operator(shft)[:20, :20]" in st
-    run.obligation(rid, "AggregateBase.fc_factor", ok, key="large-basis",
-                   message="overlaps must be taken from the shift operator computed in the large basis", loc=f.loc())
+    # the table that is looked up with the quantum numbers must come from the shift operator of the operator
+    # factory (computed in its large basis) and must not be cut at a fixed size: a level count above the cut is
+    # a legitimate declaration ("for all level counts") and the look-up then fails
+    srcs = [n for n in ast.walk(f.node) if isinstance(n, ast.Call) and isinstance(n.func, ast.Attribute)
+            and n.func.attr == "shift_operator"]
+    pmf = parents_map(f.node)
+    cuts = []
+    for c_ in srcs:
+        p_ = pmf.get(c_)
+        while isinstance(p_, ast.Subscript) and p_.value is not None:
+            sl = p_.slice
+            for x in (sl.elts if isinstance(sl, ast.Tuple) else [sl]):
+                if isinstance(x, ast.Slice) and isinstance(x.upper, ast.Constant) and isinstance(x.upper.value, int):
+                    cuts.append(x.upper.value)
+            p_ = pmf.get(p_)
+    # the basis in which the shift operator is exponentiated: overlaps are those of the displaced oscillator only for
+    # levels far below the truncation.  The size confirmed on this tree is the reference; a smaller one narrows the
+    # range of Huang-Rhys factors and level counts for which the Poisson law holds
+    CONFIRMED_BASIS = 100
+    ofc = prog.cls("quantarhei.qm.oscillators.ho.operator_factory")
+    oinit = ofc.methods["__init__"]
+    dflt = None
+    oargs = oinit.node.args
+    names_ = [a.arg for a in oargs.args]
+    if "N" in names_:
+        k_ = names_.index("N") - (len(names_) - len(oargs.defaults))
+        if 0 <= k_ < len(oargs.defaults) and isinstance(oargs.defaults[k_], ast.Constant):
+            dflt = oargs.defaults[k_].value
+    made = [n for fn_ in prog.cls(AB.rstrip(".")).methods.values() for n in ast.walk(fn_.node)
+            if isinstance(n, ast.Assign) and norm(n.targets[0]) == "self.ops" and isinstance(n.value, ast.Call)
+            and call_name(n.value) == "operator_factory"]
+    sizes = []
+    for m_ in made:
+        given = [k.value for k in m_.value.keywords if k.arg == "N"] or list(m_.value.args[:1])
+        sizes.append(given[0].value if given and isinstance(given[0], ast.Constant) else (None if given else dflt))
+    ok_basis = bool(made) and all(isinstance(x, int) and x >= CONFIRMED_BASIS for x in sizes)
+    run.obligation(rid, "AggregateBase.fc_factor", ok_basis, key="basis-size",
+                   message="the aggregate computes its overlaps from a shift operator exponentiated in a basis of %s states "
+                           "(confirmed: %d): the overlaps of the higher levels then deviate from the displaced-oscillator "
+                           "values already for moderate Huang-Rhys factors" % (sizes, CONFIRMED_BASIS), loc=f.loc(),
+                   sample={"basis_sizes": sizes, "confirmed": CONFIRMED_BASIS})
+    run.obligation(rid, "AggregateBase.fc_factor", bool(srcs) and not cuts, key="large-basis",
+                   message="overlaps must be taken from the shift operator computed in the large basis of the operator "
+                           "factory; the table is cut at the fixed size %s, so a state with a quantum number at or above "
+                           "it (a mode declared with more levels) cannot be looked up" % sorted(set(cuts)), loc=f.loc(),
+                   sample={"sources": [norm(c_) for c_ in srcs], "fixed_cuts": sorted(set(cuts))})
 
 
 def rule_D(run, prog):
